@@ -307,6 +307,7 @@ type wrappedReader struct {
 	lastLine    int64
 	accumulated []*Stmt
 	yield       func([]*Stmt, error) bool
+	stopped     bool // yield returned false; it must not be called again
 }
 
 func (w *wrappedReader) Read(p []byte) (n int, err error) {
@@ -317,11 +318,13 @@ func (w *wrappedReader) Read(p []byte) (n int, err error) {
 		if w.p.Incomplete() {
 			// Incomplete statement; call back to print "> ".
 			if !w.yield(w.accumulated, w.p.err) {
+				w.stopped = true
 				return 0, io.EOF
 			}
 		} else if len(w.accumulated) == 0 {
 			// Nothing was parsed; call back to print another "$ ".
 			if !w.yield(nil, w.p.err) {
+				w.stopped = true
 				return 0, io.EOF
 			}
 		}
@@ -374,6 +377,11 @@ func (p *Parser) InteractiveSeq(r io.Reader) iter.Seq2[[]*Stmt, error] {
 	return func(yield func([]*Stmt, error) bool) {
 		w := wrappedReader{p: p, rd: r, yield: yield}
 		for stmts, err := range p.StmtsSeq(&w) {
+			if w.stopped {
+				// The consumer stopped at a callback from wrappedReader.Read;
+				// the early EOF it caused is not to be reported.
+				break
+			}
 			w.accumulated = append(w.accumulated, stmts)
 			if err != nil {
 				if !yield(w.accumulated, err) {
